@@ -93,9 +93,9 @@ macro_rules! parts {
     }};
 }
 
-static SYS: LockStep = LockStep { property: "C07", probes: true, seed: Some(&seed) };
-static SYS_BLANK: LockStep = LockStep { property: "C07", probes: true, seed: None };
-static SYS_MED: LockStep = LockStep { property: "C07", probes: false, seed: Some(&seed) };
+static SYS: LockStep = LockStep { property: "C07", probes: true, seed: Some(&seed), via_feed: false };
+static SYS_BLANK: LockStep = LockStep { property: "C07", probes: true, seed: None, via_feed: false };
+static SYS_MED: LockStep = LockStep { property: "C07", probes: false, seed: Some(&seed), via_feed: false };
 
 fn alpha_medium(cfg: &Cfg) -> Vec<Op> {
     let mut v = alpha(cfg);
@@ -123,7 +123,7 @@ fn medium_part(tier: Tier) -> Part<'static, LockStep> {
     }
 }
 
-static SYS_SWEEP: LockStep = LockStep { property: "C07", probes: false, seed: Some(&super::sweep::fill) };
+static SYS_SWEEP: LockStep = LockStep { property: "C07", probes: false, seed: Some(&super::sweep::fill), via_feed: false };
 
 fn alpha_sweep(cfg: &Cfg) -> Vec<Op> {
     // every cell as the cursor position: the extents are relative to it
@@ -144,9 +144,55 @@ fn wide_cfgs(tier: Tier) -> Vec<Cfg> {
     v
 }
 
-static SYS_SPARSE: LockStep = LockStep { property: "C07", probes: false, seed: Some(&super::sweep::fill_sparse) };
+static SYS_SPARSE: LockStep = LockStep { property: "C07", probes: false, seed: Some(&super::sweep::fill_sparse), via_feed: false };
 
-static SYS_RESIZE: LockStep = LockStep { property: "C07", probes: false, seed: None };
+static SYS_FEED: LockStep = LockStep { property: "C07", probes: false, seed: None, via_feed: true };
+
+/// the erase / insert / delete functions delivered through feed() per character, mixed with
+/// screen switches, moves and prints: no call ends between two commands, so anything that is
+/// remembered "until the end of the call" (what was erased last, which rows are known to be
+/// blank) is still remembered when the next command runs
+fn alpha_feed(cfg: &Cfg) -> Vec<Op> {
+    let cols = cfg.cols as u32;
+    vec![
+        Op::text(&"w".repeat(cfg.cols + 1)),
+        t("ab"),
+        c(El(None)),
+        c(El(Some(1))),
+        c(Ed(None)),
+        c(Ed(Some(2))),
+        c(Ech(Some(2))),
+        c(Ich(None)),
+        c(Dch(None)),
+        c(Cup(None, None)),
+        c(Cup(Some(1), Some(cols))),
+        c(Cup(Some(2), Some(2))),
+        c(sgr1(44)),
+        c(sgr1(0)),
+        c(DecSet(vec![1049])),
+        c(DecRst(vec![1049])),
+        c(DecSet(vec![47])),
+        c(DecRst(vec![47])),
+    ]
+}
+
+fn feed_part(tier: Tier) -> Part<'static, LockStep> {
+    Part {
+        name: "edit-lockstep-through-feed",
+        sys: &SYS_FEED,
+        cfgs: match tier {
+            Tier::Quick => cfgs(&[(3, 2)], &[None]),
+            Tier::Thorough => cfgs(&[(3, 2), (4, 3), (2, 2)], &[None]),
+        },
+        alphabet: &alpha_feed,
+        depth: tier.pick(5, 6),
+        seconds: tier.pick(20.0, 1800.0),
+        validated: true,
+        nontrivial: Some("lockstep_transitions"),
+    }
+}
+
+static SYS_RESIZE: LockStep = LockStep { property: "C07", probes: false, seed: None, via_feed: false };
 
 /// erasing after the screen changed its size: blanks carry the current pen in the columns
 /// and rows the resize added, too (a small alphabet, deeper; widths around a multiple of 8)
@@ -202,6 +248,7 @@ pub fn run(ctx: &Ctx) -> Report {
     run_part(ctx, &mut rep, &super::sweep::wide_part_on("edit-realistic-screen-parameter-sweep", &SYS_SWEEP, &alpha_wide, wide_cfgs(ctx.tier), ctx.tier));
     run_part(ctx, &mut rep, &super::sweep::wide_part_on("edit-realistic-screen-sparse-content", &SYS_SPARSE, &alpha_wide, wide_cfgs(ctx.tier), ctx.tier));
     run_part(ctx, &mut rep, &resize_part(ctx.tier));
+    run_part(ctx, &mut rep, &feed_part(ctx.tier));
     rep.rule = "lock-step BFS of (real Vt, reference terminal) from a screen completely filled with distinct letters (all rows soft-wrapped) and from a blank screen: ED/EL x selectors {default,0,1,2}, ECH/ICH/DCH x counts {default,0,1,2,w-1,w,w+1,65535}, DECALN, with the cursor on every cell and in the wrap-pending column, three pens; every cell of lines(), the cursor (exact, incl. the pending column) and the specified wrap marks are compared after every transition".into();
     rep.assumptions = vec!["erase extents are computed from the reported column (R2); marks after EL 1 / ED 1 on the cursor row, ICH and DECALN are adopted".into()];
     rep
@@ -216,6 +263,7 @@ pub fn replay(ctx: &Ctx, v: &Value) -> bool {
         "edit-realistic-screen-parameter-sweep" => replay_part(ctx, &super::sweep::wide_part_on("edit-realistic-screen-parameter-sweep", &SYS_SWEEP, &alpha_wide, wide_cfgs(tier), tier), v),
         "edit-realistic-screen-sparse-content" => replay_part(ctx, &super::sweep::wide_part_on("edit-realistic-screen-sparse-content", &SYS_SPARSE, &alpha_wide, wide_cfgs(tier), tier), v),
         "edit-after-resize-lockstep" => replay_part(ctx, &resize_part(tier), v),
+        "edit-lockstep-through-feed" => replay_part(ctx, &feed_part(tier), v),
         "edit-lockstep-filled-screen" => replay_part(ctx, &a, v),
         _ => replay_part(ctx, &b, v),
     }
